@@ -330,6 +330,35 @@ pub fn c06_tf(c: &mut Ctx, a: W, f: f64) {
     }
 }
 
+/// Sign queries on an infinity reachable through the API: the extended-real value of (+-inf, _) is +-inf,
+/// so abs must give +inf and the sign tests must follow the high word.
+pub fn c06_sign_inf(c: &mut Ctx, a: W) {
+    if !a.0.is_infinite() {
+        return;
+    }
+    let ins = [hx(a.0), hx(a.1)];
+    let ta = t(a);
+    c.count("sign_of_infinity");
+    for (via, res) in [("inherent", guard(|| w(ta.abs()))), ("Float", guard(|| w(<TwoFloat as num_traits::Float>::abs(ta)))), ("Signed", guard(|| w(<TwoFloat as num_traits::Signed>::abs(&ta))))] {
+        match res {
+            Err(m) => c.viol("abs", "panic", &ins, &[], m),
+            Ok(r) => {
+                if r.0 != f64::INFINITY {
+                    c.viol("abs", "infinity", &ins, &outs(r), format!("{via}: abs of an infinity must be +infinity"));
+                }
+            }
+        }
+    }
+    match guard(|| (ta.is_sign_negative(), ta.is_sign_positive())) {
+        Err(m) => c.viol("sign", "panic", &ins, &[], m),
+        Ok((isn, isp)) => {
+            if isn != (a.0 < 0.0) || isp == (a.0 < 0.0) {
+                c.viol("is_sign", "infinity", &ins, &[isn as u64, isp as u64], "sign query on an infinity must follow its sign".into());
+            }
+        }
+    }
+}
+
 pub fn c06_sign(c: &mut Ctx, a: W, s: W) {
     if !valid_ref(a.0, a.1) {
         return;
@@ -443,6 +472,7 @@ pub fn c06(c: &mut Ctx) {
     let f64s = [0.0, -0.0, 1.0, -1.0, f64::INFINITY, f64::NEG_INFINITY, f64::NAN, f64::MAX, -f64::MAX, f64::from_bits(1)];
     let mut idx = 0u64;
     for &a in &set {
+        c06_sign_inf(c, a);
         for &b in &set {
             idx += 1;
             if idx % c.nshards != c.shard {
